@@ -401,6 +401,17 @@ def show(n, depth=0):
     return '<%s>' % k
 
 
+def tuple_node(e):
+    """the node that builds a 2-tuple result: std::make_tuple(a, b) / std::make_pair(a, b) or a braced / constructor tuple{a, b}; its
+    components are node['a'].  None when e is something else."""
+    for c in walk(e):
+        if c['k'] == 'call' and c.get('f') in ('std::make_tuple', 'std::make_pair') and len(c.get('a', [])) >= 2:
+            return c
+        if c['k'] in ('ctor', 'initlist') and len(c.get('a', [])) == 2 and (c['k'] == 'initlist' or (c.get('f') or '').startswith(('std::tuple', 'std::pair'))):
+            return c
+    return None
+
+
 def unwrap(n):
     """See through casts, default-arg wrappers, unary + and conversions."""
     while n is not None:
